@@ -134,6 +134,7 @@ type Run struct {
 	assumeNotes []string
 	inputs   []inputVar // named inputs for model projection
 	callN, qctr, noDef, probing int
+	havocN, noAssume            int
 	pureInsts  map[string]*pureInst
 	guards     map[string]*Term
 	topRets    []retRec
@@ -143,6 +144,7 @@ type Run struct {
 	entryState     *State
 	writes         map[string][]string // probe: heap key -> refs written (names)
 	sliceArr       map[string]string   // slice term name -> backing array ref name (for slices built from a known allocation)
+	cellOrigin     map[*ssa.Alloc]string // captured (heap) slice variables: allocation tag of the value last stored
 	probeCtr0      int
 	axiomsDone map[string]bool
 	axiomsUsed []string
@@ -171,7 +173,7 @@ func (r *Run) emit(line string) { r.lines = append(r.lines, scriptLine{text: lin
 
 // newPC names a path condition and records which earlier path conditions can lead to it.
 func (r *Run) newPC(t Term, parents ...Term) Term {
-	if t.S == "true" || t.S == "false" {
+	if t.S == "true" || t.S == "false" || r.noDef > 0 {
 		return t
 	}
 	n := r.fresh("pc")
@@ -233,13 +235,14 @@ func (r *Run) constOf(st *State, prefix string, t Term) Term {
 }
 
 func (r *Run) havoc(prefix, sort string) Term {
+	r.havocN++
 	n := r.fresh(prefix)
 	r.emit(fmt.Sprintf("(declare-const %s %s)", n, sort))
 	return Term{n, sort}
 }
 
 func (r *Run) assume(st *State, fact Term) {
-	if fact.S == "true" {
+	if fact.S == "true" || r.noAssume > 0 {
 		return
 	}
 	g := st.pc.S
@@ -421,6 +424,20 @@ func (r *Run) isFreshRef(ref string) bool {
 	return n > r.probeCtr0
 }
 
+func (r *Run) isFreshRefSince(ref string, ctr0 int) bool {
+	if !strings.HasPrefix(ref, "new_") || ref == "new_own" {
+		return false
+	}
+	n := 0
+	for _, c := range ref[4:] {
+		if c < '0' || c > '9' {
+			return false
+		}
+		n = n*10 + int(c-'0')
+	}
+	return n > ctr0
+}
+
 // arrRefOf: the backing-array ref of a slice term, when the slice was built from a known allocation.
 func (r *Run) arrRefOf(slice Term) string {
 	if a, ok := r.sliceArr[slice.S]; ok {
@@ -529,6 +546,12 @@ type loopInfo struct {
 	modKeys   []string
 	freshOnly map[string]bool
 	ownedAcc  []*ssa.Alloc
+	accOrigin map[*ssa.Alloc]string
+	accOwn    []func(Term) Term
+	accGet    []func(*State) (Term, bool)
+	autoFramed map[string]bool
+	writesSeen map[string][]string
+	probeCtr0  int
 	decHead   Term
 	nBack     int
 }
@@ -846,7 +869,28 @@ func (r *Run) locAsTerm(l *Loc) Term {
 	if l.kind == rootHeap && len(l.path) == 0 {
 		return l.ref
 	}
-	// interior pointers: an injective uninterpreted encoding (sound for equality tests, opaque to loads)
+	// interior pointers of heap objects: an injective uninterpreted encoding of (object, field path).
+	// Sound as an identity (equality, ghost-state key); loads/stores through such a term are not modelled
+	// (callees that are inlined receive the location itself, not this term).
+	if l.kind == rootHeap {
+		t := l.ref
+		ok := true
+		for _, pe := range l.path {
+			if pe.field < 0 {
+				ok = false
+				break
+			}
+			fn := fmt.Sprintf("fld_%s_%d", mangle(shortTypeName(pe.contT)), pe.field)
+			r.eng.u.ufunc(fn, []string{"Int"}, "Int")
+			r.eng.u.ufunc("inv_"+fn, []string{"Int"}, "Int")
+			r.eng.u.axiom(fmt.Sprintf("(forall ((x Int)) (! (and (= (inv_%s (%s x)) x) (< (%s x) 0)) :pattern ((%s x))))", fn, fn, fn, fn))
+			t = app("Int", fn, t)
+		}
+		if ok {
+			r.noteAssume("interior pointers are opaque identities (no load/store through an escaped &x.f is modelled)")
+			return t
+		}
+	}
 	unsupported("interior pointer escapes (address of %s)", shortTypeName(l.typ))
 	return Term{}
 }
